@@ -1,4 +1,4 @@
-HOOK_COMMITS = ["cbf034a"]
+HOOK_COMMITS = ["cbf034a", "79ed35c", "HEAD~0 (see git log --grep ^verif: in /repo)"]
 NOTES = ("Every check = Lean proofs (lake build + #print axioms audit) + correspondence run of the real code against the model. "
          "Properties not yet claimed are listed under not_applicable with reason 'not yet built' - that is a statement about this "
          "framework's progress, not about the technique.")
@@ -15,5 +15,14 @@ CLAIMED = {
              "spellings are parsed by the http/std crates (covered by C10's destination suite, not proved).",
     ),
 }
+CLAIMED["C04"] = dict(
+    text="Unbounded Lean theorems about the rule engine model: first match wins, default allow, fail closed without client random, "
+         "prefix and bitwise mask semantics, malformed fields never match, an IPv4-mapped peer gets the verdict of its IPv4 address, "
+         "and in the accept-path model a deny precedes the TLS answer / any QUIC codec. Tied to rules.rs / core.rs by ~100k differential "
+         "evaluations per run through RulesEngine::evaluate and Core::evaluate_connection_rules, rules files through the real "
+         "deserialiser, and a live-listener probe (denied peer sees EOF and no ServerHello byte).",
+    note="Trusted: Lean kernel, harness/door, ipnet's CIDR parser (parsed CIDRs are model inputs), TOML parsing (toml_edit), "
+         "the accept-path step list is a transcription tied only by the TCP probe; QUIC ordering is read from the code.",
+)
 NOT_CLAIMED = {p: "not yet built in this framework (planned, see DESIGN.md section 5)" for p in
-               ["C01", "C02", "C04", "C05", "C06", "C07", "C08", "C09", "C10", "C11", "C12", "C13", "C14", "C15", "C16", "C17", "C18", "C19", "C20"]}
+               ["C01", "C02", "C05", "C06", "C07", "C08", "C09", "C10", "C11", "C12", "C13", "C14", "C15", "C16", "C17", "C18", "C19", "C20"]}
